@@ -51,6 +51,16 @@ func init() {
 		Assumptions: []string{"the checkpoint metadata (root, digests) comes from a trusted source unless the corruption operator says the attacker also controls the digest list"},
 	})
 	reg(&core.Property{
+		ID: "C07", Level: "fault_enumeration",
+		Batches: []core.Batch{
+			{Name: "nodedb-crash", Engine: store.CrashEngine{}, Quick: 1200, Thorough: 30000,
+				Rule: "a run is non-trivial when the sampled operation performed at least one durable write and every hook hit inside it was used as a crash point (child process exit), followed by reopen, retry and continued operation"},
+		},
+		Real:        []string{"badger and pathbadger Commit/Finalize/Prune/StartMultipartInsert/chunk Commit on tmpfs directories, written by a child OS process that exits abruptly (os.Exit) at the selected verifhook point", "reopen (db.New incl. multipart leftover cleanup), checkpoint restorer"},
+		Stub:        []string{"process death is os.Exit in a child process (no power-loss write reordering, no torn sectors; badger-internal partial batch application is not enumerable)"},
+		Assumptions: []string{"hook hits inside one operation are deterministic for a given history (checked: a child that does not reach the requested hit is a harness error)"},
+	})
+	reg(&core.Property{
 		ID: "C04", Level: "exploration",
 		Batches: []core.Batch{
 			{Name: "byzantine", Engine: store.ProofEngine{}, Quick: 60000, Thorough: 2000000,
